@@ -41,13 +41,12 @@ func c07bCanon(s string, prefix string, base int, v *big.Int) bool {
 	if len(s) == 0 || (len(s) > 1 && s[0] == '0') {
 		return false
 	}
+	lower := true
 	for i := 0; i < len(s); i++ {
-		if s[i] >= 'A' && s[i] <= 'Z' {
-			return false
-		}
+		lower = verifAnd(lower, uint8(s[i]-'A') >= 26)
 	}
 	got, ok := verifParseDigits(s, base)
-	return ok && got.Cmp(new(big.Int).Abs(v)) == 0
+	return verifAnd(lower, ok) && got.Cmp(new(big.Int).Abs(v)) == 0
 }
 
 //verif:property C07
@@ -77,6 +76,9 @@ func VerifC07BaseText() {
 	s, ok := got.(py.String)
 	verifAssert(ok, "the result is a string")
 	verifAssert(c07bCanon(string(s), prefix, base, av), "hex/oct/bin(n) is the canonical prefixed text of n")
+	if base == 16 {
+		return // reading hexadecimal text back is VerifC07TextShort/Long (the real parser forks on every digit's class)
+	}
 	// reading the text back with base 0 gives n
 	back, err := py.IntFromString(string(s), 0)
 	verifAssert(err == nil, "int(text, 0) accepts the text")
